@@ -283,8 +283,21 @@ def c08_sweep(binary, jobs=64):
             if mv and viol is None:
                 trace = mv.group(1).replace('\\n', '\n')
                 o = K.run_trace(binary, trace, timeout=60)
+                mz = _re.search(r'^TZ 0 (b|x)direct (\d+)', trace, _re.M)
                 if not o.failed:
-                    raise K.HarnessError('sweep08 disagreement does not reproduce as a trace:\n' + trace[:600])
+                    # the trace executor does more between two questions than the sweep did (decoys, its own fresh
+                    # processors): a defect that depends on exactly what ran in between shows in the sweep only. It is
+                    # still a disagreement between a client and a fresh processor; the replay re-runs the sweep of
+                    # that one zone.
+                    again = subprocess.run([binary, 'sweep08', '0', '1', '1', mz.group(1), mz.group(2)], stdout=subprocess.PIPE,
+                                           stderr=subprocess.PIPE, text=True, timeout=600)
+                    if 'SWEEP08VIOL' not in again.stdout:
+                        raise K.HarnessError('sweep08 disagreement reproduces neither as a trace nor as a sweep of its zone:\n' + trace[:600])
+                    last = [l for l in trace.split('\n') if l.startswith('Q ')][-2:]
+                    viol = {'trace': trace, 'min_trace': trace, 'tests': 0, 'vclass': 'c08-sweep-pair',
+                            'msg': 'ordered-pair sweep: a client on one processor and a fresh processor disagree after: ' + ' ; '.join(last),
+                            'extra': {'engine': 'sweep08', 'db': mz.group(1), 'zone_index': int(mz.group(2))}}
+                    continue
                 mn, tests = K.minimise(binary, trace, o.vclass, timeout=HANG_S)
                 o2 = K.run_trace(binary, mn, timeout=HANG_S)
                 viol = {'trace': trace, 'min_trace': mn, 'tests': tests, 'vclass': o.vclass, 'msg': o2.msg or o.msg}
@@ -535,8 +548,9 @@ def run_sim_check(prop, tier, verif_seed, spec=None, runs_override=None):
             sweep08.append(info)
             if sv:
                 v = {'run': -1, 'seed': 0, 'vclass': sv['vclass'], 'msg': sv['msg'], 'op': -1}
-                path = K.write_replay(prop, 'tz-history', tier, verif_seed, v, sv['trace'], sv['min_trace'], variant, sv['tests'],
-                                      {'found_by': 'exhaustive ordered-pair sweep of cached-year states'})
+                extra = {'found_by': 'exhaustive ordered-pair sweep of cached-year states'}
+                extra.update(sv.get('extra', {}))
+                path = K.write_replay(prop, 'tz-history', tier, verif_seed, v, sv['trace'], sv['min_trace'], variant, sv['tests'], extra)
                 print('VIOLATION property=%s replay=%s' % (prop, path))
                 K.log('[%s] pair sweep: %s %s' % (prop, sv['vclass'], sv['msg']))
                 violations += 1
